@@ -148,8 +148,15 @@ ClusterCharges(s, tape) ==
   IF Cardinality({i \in Idx(s) : At(s, i) \in Positive}) < 2 /\ Cardinality({i \in Idx(s) : At(s, i) \in Negative}) < 2
   THEN Out("error", s, 0) ELSE ClusterLoop(s, tape, 1, s)
 
+\* swapRes(i, j) called directly: the two indices arrive as <<"arg", i>>, <<"arg", j>>; equal indices give a fresh copy
+PairSwap(s, tape) ==
+  IF ~(IsDraw(tape, 1, "arg") /\ IsDraw(tape, 2, "arg")) THEN Out("more", s, 0)
+  ELSE IF ~(tape[1][2] \in Idx(s) /\ tape[2][2] \in Idx(s)) THEN Out("error", s, 2)
+  ELSE Out("child", SwapRes(s, tape[1][2], tape[2][2]), 2)
+
 Move(name, s, frozen, tape) ==
-  CASE name = "full_shuffle" -> FullShuffle(s, frozen, tape)
+  CASE name = "swapRes" -> PairSwap(s, tape)
+    [] name = "full_shuffle" -> FullShuffle(s, frozen, tape)
     [] name = "swapRandChargeRes" -> SwapRandCharge(s, frozen, tape)
     [] name = "permute_block_swap" -> BlockSwap(s, tape)
     [] name = "permute_cluster_charges" -> ClusterCharges(s, tape)
